@@ -2,52 +2,43 @@
    prediction / correction over a multi-step history) on the case file given on
    stdin.  The standard-normal draws of every step are read from the
    implementation's output (Sys.argv.(1), fields z<k>): they are inputs of the model.
-   The square-root oracle is an LDL^T factorisation with Eigen's pivoting rule
-   (largest remaining original diagonal entry first), P^T L sqrt(D). *)
+   The square root of the proposal draws is the Gallina ldlt_sqrt of C08_Model (extracted);
+   the record's msqrt oracle (used by C05's sigma points only) is a Jacobi factor. *)
 
-let min_gap = ref infinity     (* smallest relative gap between diagonal entries compared by the pivoting *)
-let max_resid = ref 0.0        (* largest |L L^T - P| / max|P| seen: run-time check of the oracle contract *)
-
-let ldlt_sqrt (_ : nat) (a : Obj.t list list) : Obj.t list list =
-  let a = mat_of_lmx a in
+(* Square-root oracle of the record (used by the unscented wrapped steps only, C05's sigma
+   points): Eigen's jacobiSvd factor U sqrt(S) of a symmetric PSD matrix, here from a cyclic
+   Jacobi eigen-decomposition.  Columns are determined up to order and sign (distinct
+   eigenvalues), which leaves the set of sigma points, hence the unscented moments, unchanged. *)
+let jacobi_sqrt (_ : nat) (p : Obj.t list list) : Obj.t list list =
+  let a = Array.map Array.copy (mat_of_lmx p) in
   let n = Array.length a in
-  let perm = Array.init n (fun i -> i) in
-  for k = 0 to n - 1 do
-    let best = ref k in
-    for j = k + 1 to n - 1 do
-      let dj = abs_float a.(perm.(j)).(perm.(j)) and db = abs_float a.(perm.(!best)).(perm.(!best)) in
-      let g = abs_float (dj -. db) /. (max dj db +. 1e-300) in
-      if g < !min_gap then min_gap := g;
-      if dj > db then best := j
-    done;
-    let t = perm.(k) in perm.(k) <- perm.(!best); perm.(!best) <- t
+  let v = Array.init n (fun i -> Array.init n (fun j -> if i = j then 1.0 else 0.0)) in
+  for i = 0 to n - 1 do for j = 0 to i - 1 do let s = 0.5 *. (a.(i).(j) +. a.(j).(i)) in a.(i).(j) <- s; a.(j).(i) <- s done done;
+  for _sweep = 1 to 60 do
+    for p = 0 to n - 2 do for q = p + 1 to n - 1 do
+      if abs_float a.(p).(q) > 1e-300 then begin
+        let theta = (a.(q).(q) -. a.(p).(p)) /. (2.0 *. a.(p).(q)) in
+        let t = (if theta >= 0.0 then 1.0 else -1.0) /. (abs_float theta +. sqrt (theta *. theta +. 1.0)) in
+        let c = 1.0 /. sqrt (t *. t +. 1.0) in
+        let s = t *. c in
+        for k = 0 to n - 1 do
+          let akp = a.(k).(p) and akq = a.(k).(q) in
+          a.(k).(p) <- c *. akp -. s *. akq; a.(k).(q) <- s *. akp +. c *. akq
+        done;
+        for k = 0 to n - 1 do
+          let apk = a.(p).(k) and aqk = a.(q).(k) in
+          a.(p).(k) <- c *. apk -. s *. aqk; a.(q).(k) <- s *. apk +. c *. aqk
+        done;
+        for k = 0 to n - 1 do
+          let vkp = v.(k).(p) and vkq = v.(k).(q) in
+          v.(k).(p) <- c *. vkp -. s *. vkq; v.(k).(q) <- s *. vkp +. c *. vkq
+        done
+      end
+    done done
   done;
-  (* B = P A P^T read from the lower triangle of A, as Eigen does *)
-  let b i j = let pi = perm.(i) and pj = perm.(j) in if pi >= pj then a.(pi).(pj) else a.(pj).(pi) in
-  let l = Array.make_matrix n n 0.0 and d = Array.make n 0.0 in
-  for j = 0 to n - 1 do
-    let s = ref (b j j) in
-    for k = 0 to j - 1 do s := !s -. l.(j).(k) *. l.(j).(k) *. d.(k) done;
-    d.(j) <- !s;
-    l.(j).(j) <- 1.0;
-    for i = j + 1 to n - 1 do
-      let s = ref (b i j) in
-      for k = 0 to j - 1 do s := !s -. l.(i).(k) *. l.(j).(k) *. d.(k) done;
-      l.(i).(j) <- (if d.(j) <> 0.0 then !s /. d.(j) else !s)
-    done
-  done;
-  let r = Array.make_matrix n n 0.0 in
-  for i = 0 to n - 1 do for j = 0 to n - 1 do r.(perm.(i)).(j) <- l.(i).(j) *. sqrt d.(j) done done;
-  (* contract check *)
-  let amax = ref 1e-300 in
-  Array.iter (Array.iter (fun x -> if abs_float x > !amax then amax := abs_float x)) a;
-  for i = 0 to n - 1 do for j = 0 to n - 1 do
-    let s = ref 0.0 in
-    for k = 0 to n - 1 do s := !s +. r.(i).(k) *. r.(j).(k) done;
-    let e = abs_float (!s -. a.(i).(j)) /. !amax in
-    if e > !max_resid || e <> e then max_resid := e
-  done done;
-  lmx_of_mat r
+  lmx_of_mat (Array.init n (fun i -> Array.init n (fun j -> v.(i).(j) *. sqrt (max 0.0 a.(j).(j)))))
+
+let ldlt n p = c08_ldlt fops jacobi_sqrt n p
 
 (* A x = b by Gaussian elimination with partial pivoting *)
 let solve (a : float array array) (b : float array) : float array =
@@ -102,54 +93,64 @@ let () =
     (fun (c : Caseio.case) ->
       match List.find_opt (fun (r : Caseio.case) -> r.id = c.id) impl with
       | None -> ()
-      | Some _ when c.kind <> "gpf" && c.kind <> "gpf_ks" ->
+      | Some _ when c.kind = "gpf_fresh" || c.kind = "gpf_moved" ->
         (* lifetime kinds: nothing to compute (the statement is refuted at model level, see Properties_C08.v) *)
         Caseio.out_begin c.id; Caseio.out_end ()
+      | Some io when Caseio.has io "skipped_ndebug" ->
+        Caseio.out_begin c.id; Caseio.out_int "skipped_ndebug" 1; Caseio.out_end ()
       | Some io ->
         let n = Caseio.meta_int c "n" and m = Caseio.meta_int c "m" and nn = Caseio.meta_int c "N" in
         let steps = Caseio.meta_int c "steps" in
         let g name = lmx_of_mat (Caseio.get_mat c name) in
         let tkind = if Caseio.meta c "tkind" = "cauchy" then 1 else 0 in
+        let wrap = match Caseio.meta c "wrap" with "ukf" -> 1 | "sukf" -> 2 | _ -> 0 in
+        let ut = if Caseio.has c "ut" then Caseio.get_mat c "ut" else [| [| 1.0; 2.0; 0.0 |] |] in
         let ys = Caseio.get_mat c "ys" in
-        let mv = Array.of_list (Caseio.get_word c "mv") and lok = Array.of_list (Caseio.get_word c "lok") in
+        let w name = Array.of_list (Caseio.get_word c name) in
+        let fl_ a k = k < Array.length a && a.(k) <> "0" in
+        let gcok = w "gcok" and l1 = w "l1" and l2 = w "l2" and l3 = w "l3" and l4 = w "l4" and lok = w "lok" in
+        let skpp = w "skpp" and skgp = w "skgp" and skpc = w "skpc" and skgc = w "skgc" in
         let scale = (Caseio.get_mat c "scale").(0).(0) in
+        let cf = { cf_wrap = nat_of_int wrap; cf_ut = ((ob ut.(0).(0), ob ut.(0).(1)), ob ut.(0).(2));
+                   cf_hkind = nat_of_int (int_of_string (Caseio.meta c "hkind"));
+                   cf_H = g "H"; cf_G = g "G"; cf_G2 = g "G2"; cf_b = g "b"; cf_g = g "g"; cf_R = g "R"; cf_F = g "F"; cf_Q = g "Q";
+                   cf_scale = ob scale; cf_tkind = nat_of_int tkind; cf_Ft = g "Ft"; cf_Qt = g "Qt" } in
         let set p = particles_of (Caseio.get_mat c (p ^ "_state")) (Caseio.get_mat c (p ^ "_mean"))
                       (Caseio.get_mat c (p ^ "_cov")) (Caseio.get_mat c (p ^ "_lw")) in
-        let step k =
-          let z = Caseio.get_mat io (Printf.sprintf "z%d" k) in
-          let zs = List.init nn (fun i -> lmx_of_mat (mat_col z i)) in
-          (((lmx_of_mat (mat_col ys k), mv.(k) <> "0"), lok.(k) <> "0"), zs) in
-        min_gap := infinity; max_resid := 0.0;
-        let run_step pred corr st =
-          match c08_trace fops ldlt_sqrt (nat_of_int n) (nat_of_int m) (g "F") (g "Q") (g "H") (g "R") (ob scale)
-                  (nat_of_int tkind) (g "Ft") (g "Qt") pred corr [ st ] with
+        let step k zs : step_tuple =
+          (((((lmx_of_mat (mat_col ys k), fl_ gcok k), (((fl_ l1 k, fl_ l2 k), fl_ l3 k), fl_ l4 k)), fl_ lok k),
+            (((fl_ skpp k, fl_ skgp k), fl_ skpc k), fl_ skgc k)), zs) in
+        let run_step pred corr valid lik st =
+          match c08_trace fops jacobi_sqrt (nat_of_int n) (nat_of_int m) cf pred corr valid lik [ st ] with
           | [ r ] -> r
           | _ -> failwith "c08_trace: one step expected" in
         Caseio.out_begin c.id;
-        let pred = ref (set "p") and corr = ref (set "c") in
+        let pred = ref (set "p") and corr = ref (set "c") and valid = ref false and lik = ref [] in
         let max_zz = ref 0.0 and refact = ref 0 in
         for k = 0 to steps - 1 do
-          let (((y, mv_), lok_), zs) = step k in
-          let r0 = run_step !pred !corr (((y, mv_), lok_), zs) in
+          let z = Caseio.get_mat io (Printf.sprintf "z%d" k) in
+          let zs = List.init nn (fun i -> lmx_of_mat (mat_col z i)) in
+          let r0 = run_step !pred !corr !valid !lik (step k zs) in
           let (((_, corr0), valid0), _) = r0 in
+          let skipped = fl_ skpc k in
           (* The property leaves the square-root factor free (any L with L L^T = P).  If the implementation's
-             positions differ from m + L z for the driver's L, the positions are compared through the relation
+             positions differ from m + L z for the model's L, the positions are compared through the relation
              instead: z' = L^-1 (x_impl - m) must satisfy |z'|^2 = |z|^2 (reported as zz_dev), and the step is
              re-run on z' so that everything downstream is still compared. *)
           let r =
-            if valid0 && Caseio.has io (Printf.sprintf "c%d_state" k) && Caseio.get_int io (Printf.sprintf "valid%d" k) = 1 then begin
+            if valid0 && not skipped && Caseio.has io (Printf.sprintf "c%d_state" k) && Caseio.get_int io (Printf.sprintf "valid%d" k) = 1 then begin
               let xi = Caseio.get_mat io (Printf.sprintf "c%d_state" k) in
               let dev = ref 0.0 in
               List.iteri (fun i (((x, _), _), _) ->
                   let xm = mat_of_lmx x in
                   for r = 0 to n - 1 do
                     let d = abs_float (xm.(r).(0) -. xi.(r).(i)) /. (1.0 +. abs_float xi.(r).(i)) in
-                    if d > !dev || d <> d then dev := d
+                    if d > !dev then dev := d
                   done) corr0;
               if !dev > 1e-6 then begin
                 incr refact;
                 let zs' = List.mapi (fun i ((((_, mu), p), _), z) ->
-                    let l = mat_of_lmx (ldlt_sqrt (nat_of_int n) p) and mu = mat_of_lmx mu in
+                    let l = mat_of_lmx (ldlt (nat_of_int n) p) and mu = mat_of_lmx mu in
                     let rhs = Array.init n (fun r -> xi.(r).(i) -. mu.(r).(0)) in
                     let z' = solve l rhs in
                     let zz = Array.fold_left (fun a v -> a +. v *. v) 0.0 z'
@@ -157,22 +158,23 @@ let () =
                     let d = abs_float (zz -. zz0) /. (1.0 +. zz0) in
                     if d > !max_zz || d <> d then max_zz := d;
                     lmx_of_mat (Array.map (fun v -> [| v |]) z')) (List.combine corr0 zs) in
-                run_step !pred !corr (((y, mv_), lok_), zs')
+                run_step !pred !corr !valid !lik (step k zs')
               end else r0
             end else r0 in
-          let (((pred', corr'), valid), lik) = r in
+          let (((pred', corr'), valid'), lik') = r in
           out_set (Printf.sprintf "p%d" k) n pred';
           out_set (Printf.sprintf "c%d" k) n corr';
-          Caseio.out_int (Printf.sprintf "valid%d" k) (if valid then 1 else 0);
-          Caseio.out_mat_shape (Printf.sprintf "lik%d" k) (List.length lik) 1
-            (Array.of_list (List.map (fun x -> [| fl x |]) lik));
-          (* proposal density of the model at its own corrected set *)
+          Caseio.out_int (Printf.sprintf "valid%d" k) (if valid' then 1 else 0);
+          Caseio.out_mat_shape (Printf.sprintf "lik%d" k) (List.length lik') 1
+            (Array.of_list (List.map (fun x -> [| fl x |]) lik'));
+          (* proposal density and square-root factor of the model at its own corrected set *)
           Caseio.out_mat_shape (Printf.sprintf "q%d" k) (List.length corr') 1
-            (Array.of_list (List.map (fun (((x, mu), p), _) -> [| fl (c08_proposal fops ldlt_sqrt (nat_of_int n) x mu p) |]) corr'));
-          pred := pred'; corr := corr'
+            (Array.of_list (List.map (fun (((x, mu), p), _) -> [| fl (c08_proposal fops jacobi_sqrt (nat_of_int n) x mu p) |]) corr'));
+          let ls = List.map (fun (((_, _), p), _) -> mat_of_lmx (ldlt (nat_of_int n) p)) corr' in
+          Caseio.out_mat_shape (Printf.sprintf "L%d" k) n (n * List.length corr')
+            (Array.init n (fun r -> Array.concat (List.map (fun l -> l.(r)) ls)));
+          pred := pred'; corr := corr'; valid := valid'; lik := lik'
         done;
-        Caseio.out_num "pivot_gap" !min_gap;
-        Caseio.out_num "sqrt_resid" !max_resid;
         Caseio.out_int "other_factor_steps" !refact;
         Caseio.out_num "zz_dev" !max_zz;
         Caseio.out_end ())
